@@ -28,80 +28,163 @@ theorem lcm_dvd {x y m : Int} (hx : x ∣ m) (hy : y ∣ m) : lcm x y ∣ m := b
 theorem dvd_lcm_left (x y : Int) : x ∣ lcm x y := by rw [lcm_eq]; exact Int.dvd_lcm_left x y
 theorem dvd_lcm_right (x y : Int) : y ∣ lcm x y := by rw [lcm_eq]; exact Int.dvd_lcm_right x y
 
+/-! ### extended Euclid -/
+
+theorem bezoutLoop_spec (x y : Int) : ∀ (fuel : Nat) (r0 r1 s0 s1 : Int), r1.natAbs < fuel →
+    ((bezoutLoop fuel r0 r1 s0 s1).1 ∣ r0 ∧ (bezoutLoop fuel r0 r1 s0 s1).1 ∣ r1) ∧
+    (y ∣ x * s0 - r0 → y ∣ x * s1 - r1 →
+      y ∣ x * (bezoutLoop fuel r0 r1 s0 s1).2 - (bezoutLoop fuel r0 r1 s0 s1).1) := by
+  intro fuel
+  induction fuel with
+  | zero => intro r0 r1 s0 s1 h; omega
+  | succ n ih =>
+    intro r0 r1 s0 s1 hlt
+    unfold bezoutLoop
+    split
+    · rename_i h0
+      subst h0
+      exact ⟨⟨Int.dvd_refl _, Int.dvd_zero _⟩, fun h _ => h⟩
+    · rename_i h0
+      have hr2 : r0 - r0.tdiv r1 * r1 = Int.tmod r0 r1 := by
+        rw [Int.tmod_def, Int.mul_comm]
+      have hlt2 : (r0 - r0.tdiv r1 * r1).natAbs < n := by
+        rw [hr2, Int.natAbs_tmod]
+        have : r0.natAbs % r1.natAbs < r1.natAbs := Nat.mod_lt _ (by omega)
+        omega
+      obtain ⟨⟨g1, g2⟩, hu⟩ := ih r1 (r0 - r0.tdiv r1 * r1) s1 (s0 - r0.tdiv r1 * s1) hlt2
+      simp only
+      refine ⟨⟨?_, g1⟩, ?_⟩
+      · have hdv := Int.dvd_add g2 (Int.dvd_trans g1 (Int.dvd_mul_left (r0.tdiv r1) r1))
+        have e : (r0 - r0.tdiv r1 * r1) + r0.tdiv r1 * r1 = r0 := by omega
+        rwa [e] at hdv
+      · intro h1 h2
+        apply hu h2
+        have e : x * (s0 - r0.tdiv r1 * s1) - (r0 - r0.tdiv r1 * r1)
+            = (x * s0 - r0) - r0.tdiv r1 * (x * s1 - r1) := by
+          grind
+        rw [e]
+        exact Int.dvd_sub h1 (Int.dvd_trans h2 (Int.dvd_mul_left _ _))
+
+/-- `bezout(x, y)` returns a common divisor `g` and `u` with `x*u ≡ g (mod y)` -/
+theorem bezout_spec (x y : Int) :
+    (bezout x y).1 ∣ x ∧ (bezout x y).1 ∣ y ∧ y ∣ x * (bezout x y).2 - (bezout x y).1 := by
+  have := bezoutLoop_spec x y (y.natAbs + 1) x y 1 0 (by omega)
+  unfold bezout
+  refine ⟨this.1.1, this.1.2, this.2 (by simp) (by simp)⟩
+
 /-! ### meet -/
 
-/-- the part of the domain of `operator&` on which its answer is right: an operand is
-    bottom or a constant, or the two residues are recognised as compatible and are already
-    congruent modulo the lcm (so that `max(b,b')` is a common solution) -/
-def meetSafe (x o : Cong) : Prop :=
-  x.isBot = true ∨ o.isBot = true ∨ x.a = 0 ∨ o.a = 0 ∨
-  (Int.tmod x.b (gcd x.a o.a) = Int.tmod o.b (gcd x.a o.a) ∧ lcm x.a o.a ∣ x.b - o.b)
-instance (x o : Cong) : Decidable (meetSafe x o) := by unfold meetSafe; exact inferInstance
+theorem eq_of_mem_cst {k : Int} {c : Cong} (h : mem k c) (ha : c.a = 0) : k = c.b := by
+  have := h.2; rw [ha] at this
+  exact Int.eq_of_sub_eq_zero (Int.zero_dvd.mp this)
 
-theorem meet_sound_of_safe {x o : Cong} (hs : meetSafe x o) {k : Int} (hx : mem k x) (ho : mem k o) :
-    mem k (meet x o) := by
+/-- the common element computed by the general case of `operator&` -/
+theorem crt_elem {a a' b b' g u : Int} (hu : a' ∣ a * u - g) (hd : g ∣ b' - b) (hg0 : g ≠ 0) :
+    a ∣ (b + a * (u * Int.tdiv (b' - b) g)) - b ∧ a' ∣ (b + a * (u * Int.tdiv (b' - b) g)) - b' := by
+  obtain ⟨t, ht⟩ := hd
+  have hq : Int.tdiv (b' - b) g = t := by rw [ht]; exact Int.mul_tdiv_cancel_left _ hg0
+  rw [hq]
+  constructor
+  · have : b + a * (u * t) - b = a * (u * t) := by omega
+    rw [this]; exact Int.dvd_mul_right _ _
+  · have : b + a * (u * t) - b' = (a * u - g) * t := by
+      have : b' = b + g * t := by omega
+      rw [this, Int.sub_mul, Int.mul_assoc]; omega
+    rw [this]; exact Int.dvd_trans hu (Int.dvd_mul_right _ _)
+
+theorem meet_sound {x o : Cong} {k : Int} (hx : mem k x) (ho : mem k o) : mem k (meet x o) := by
   unfold meet
   simp only [hx.1, ho.1, Bool.or_self, Bool.false_eq_true, if_false]
   have hxa := hx.2
   have hoa := ho.2
   split
   · rename_i h0
-    rw [h0.1] at hxa; rw [h0.2] at hoa
-    have e1 := Int.eq_of_sub_eq_zero (Int.zero_dvd.mp hxa)
-    have e2 := Int.eq_of_sub_eq_zero (Int.zero_dvd.mp hoa)
+    have e1 := eq_of_mem_cst hx h0.1
+    have e2 := eq_of_mem_cst ho h0.2
     have : x.b = o.b := by omega
     simp [this]; exact hx
   · split
     · rename_i hxa0
-      rw [hxa0] at hxa
-      have e1 := Int.eq_of_sub_eq_zero (Int.zero_dvd.mp hxa)
+      have e1 := eq_of_mem_cst hx hxa0
       rw [e1] at hoa
       simp [Int.tmod_eq_zero_of_dvd hoa]; exact hx
     · split
       · rename_i hoa0
-        rw [hoa0] at hoa
-        have e1 := Int.eq_of_sub_eq_zero (Int.zero_dvd.mp hoa)
+        have e1 := eq_of_mem_cst ho hoa0
         rw [e1] at hxa
         simp [Int.tmod_eq_zero_of_dvd hxa]; exact ho
-      · rename_i hn1 hn2 hn3
-        rcases hs with h | h | h | h | ⟨ht, hl⟩
-        · rw [hx.1] at h; cases h
-        · rw [ho.1] at h; cases h
-        · exact absurd h hn2
-        · exact absurd h hn3
-        · simp only [ht, if_true]
-          rw [mem_mk']
-          -- lcm ∣ k - x.b, and the representative differs from x.b by a multiple of the lcm
-          have hxo : o.a ∣ k - x.b := by
-            have := Int.dvd_trans (dvd_lcm_right x.a o.a) hl
-            have e : k - x.b = (k - o.b) - (x.b - o.b) := by omega
-            rw [e]; exact Int.dvd_sub hoa this
-          have hk : lcm x.a o.a ∣ k - x.b := lcm_dvd hxa hxo
-          unfold imax; split
-          · have e : k - o.b = (k - x.b) + (x.b - o.b) := by omega
-            rw [e]; exact Int.dvd_add hk hl
-          · exact hk
+      · rename_i hn1 hxa0 hoa0
+        obtain ⟨hg1, hg2, hu⟩ := bezout_spec x.a o.a
+        have hg0 : (bezout x.a o.a).1 ≠ 0 := by
+          intro h0; rw [h0] at hg1; exact hxa0 (Int.zero_dvd.mp hg1)
+        -- a common member forces g ∣ b' - b
+        have hd : (bezout x.a o.a).1 ∣ o.b - x.b := by
+          have h1 := Int.dvd_trans hg1 hxa
+          have h2 := Int.dvd_trans hg2 hoa
+          have e : o.b - x.b = (k - x.b) - (k - o.b) := by omega
+          rw [e]; exact Int.dvd_sub h1 h2
+        simp only [Int.tmod_eq_zero_of_dvd hd, if_true]
+        rw [mem_mk']
+        obtain ⟨c1, c2⟩ := crt_elem hu hd hg0
+        apply lcm_dvd
+        · have e : ∀ z, k - z = (k - x.b) - (z - x.b) := by intro z; omega
+          rw [e]; exact Int.dvd_sub hxa c1
+        · have e : ∀ z, k - z = (k - o.b) - (z - o.b) := by intro z; omega
+          rw [e]; exact Int.dvd_sub hoa c2
+
+/-- the meet adds nothing: it is exactly the intersection -/
+theorem meet_exact {x o : Cong} {k : Int} (h : mem k (meet x o)) : mem k x ∧ mem k o := by
+  unfold meet at h
+  cases hxb : x.isBot
+  · cases hob : o.isBot
+    · simp only [hxb, hob, Bool.or_self, Bool.false_eq_true, if_false] at h
+      split at h
+      · rename_i h0
+        split at h
+        · rename_i hb
+          refine ⟨h, hob, ?_⟩
+          have := h.2; rw [h0.1] at this; rw [h0.2, ← hb]; exact this
+        · exact absurd h (not_mem_bot k)
+      · split at h
+        · rename_i hxa0
+          split at h
+          · rename_i hd
+            refine ⟨h, hob, ?_⟩
+            have ek := eq_of_mem_cst h hxa0
+            rw [ek]; exact Int.dvd_of_tmod_eq_zero hd
+          · exact absurd h (not_mem_bot k)
+        · split at h
+          · rename_i hoa0
+            split at h
+            · rename_i hd
+              refine ⟨⟨hxb, ?_⟩, h⟩
+              have ek := eq_of_mem_cst h hoa0
+              rw [ek]; exact Int.dvd_of_tmod_eq_zero hd
+            · exact absurd h (not_mem_bot k)
+          · rename_i hxa0 hoa0
+            split at h
+            · rename_i hd
+              obtain ⟨hg1, hg2, hu⟩ := bezout_spec x.a o.a
+              have hg0 : (bezout x.a o.a).1 ≠ 0 := by
+                intro h0; rw [h0] at hg1; exact hxa0 (Int.zero_dvd.mp hg1)
+              obtain ⟨c1, c2⟩ := crt_elem hu (Int.dvd_of_tmod_eq_zero hd) hg0
+              have hk := (mem_mk' _ _ _).mp h
+              have h1 := Int.dvd_trans (dvd_lcm_left x.a o.a) hk
+              have h2 := Int.dvd_trans (dvd_lcm_right x.a o.a) hk
+              constructor
+              · refine ⟨hxb, ?_⟩
+                have e : ∀ z, k - x.b = (k - z) + (z - x.b) := by intro z; omega
+                rw [e]; exact Int.dvd_add h1 c1
+              · refine ⟨hob, ?_⟩
+                have e : ∀ z, k - o.b = (k - z) + (z - o.b) := by intro z; omega
+                rw [e]; exact Int.dvd_add h2 c2
+            · exact absurd h (not_mem_bot k)
+    · simp only [hob, Bool.or_true, if_true] at h; exact absurd h (not_mem_bot k)
+  · simp only [hxb, Bool.true_or, if_true] at h; exact absurd h (not_mem_bot k)
 
 /-! ### signed division and remainder -/
 
-/-- excluded from the soundness of `/` and `%`: a constant divided by a class (non-zero
-    constant, the divisor not being recognised as top) -/
-def divCstByClass (x o : Cong) : Prop := x.a = 0 ∧ o.a ≠ 0 ∧ x.b ≠ 0
-instance (x o : Cong) : Decidable (divCstByClass x o) := by unfold divCstByClass; exact inferInstance
-
-/-- excluded unless the dividend is non-negative: a class divided by a constant that divides
-    the modulus but not the residue (the quotient/remainder of the residue is then used for
-    the whole class, which is wrong for members of the other sign) -/
-def divClassByCst (x o : Cong) : Prop :=
-  o.a = 0 ∧ x.a ≠ 0 ∧ Int.tmod x.a o.b = 0 ∧ ¬ (o.b ∣ x.b)
-instance (x o : Cong) : Decidable (divClassByCst x o) := by unfold divClassByCst; exact inferInstance
-
-theorem eq_of_mem_cst {k : Int} {c : Cong} (h : mem k c) (ha : c.a = 0) : k = c.b := by
-  have := h.2; rw [ha] at this
-  exact Int.eq_of_sub_eq_zero (Int.zero_dvd.mp this)
-
-theorem div_sound_of_safe {x o : Cong} {a b : Int} (ha : mem a x) (hb : mem b o) (hb0 : b ≠ 0)
-    (h4 : ¬ divCstByClass x o) (h3 : ¬ divClassByCst x o ∨ (0 ≤ a ∧ 0 ≤ x.b)) :
+theorem div_sound {x o : Cong} {a b : Int} (ha : mem a x) (hb : mem b o) (hb0 : b ≠ 0) :
     mem (Int.tdiv a b) (div x o) := by
   unfold div
   simp only [ha.1, hb.1, Bool.or_self, Bool.false_eq_true, if_false]
@@ -116,46 +199,27 @@ theorem div_sound_of_safe {x o : Cong} {a b : Int} (ha : mem a x) (hb : mem b o)
         have eb := eq_of_mem_cst hb hoa
         rw [← eb]
         split
-        · rename_i hdiv
-          rw [mem_mk']
-          have hd : b ∣ x.a := Int.dvd_of_tmod_eq_zero hdiv
-          obtain ⟨i, hi⟩ := ha.2
-          by_cases hxa : x.a = 0
-          · have := eq_of_mem_cst ha hxa
-            rw [this]; simp
-          · rcases h3 with h3 | ⟨h30, h31⟩
-            · -- exact division: b divides the residue too
-              have hbx : b ∣ x.b := by
-                apply Classical.byContradiction
-                intro hc
-                exact h3 ⟨hoa, hxa, by rw [← eb]; exact hdiv, by rw [← eb]; exact hc⟩
-              obtain ⟨q, hq⟩ := hd
-              obtain ⟨r, hr⟩ := hbx
-              have ea : a = b * (q * i + r) := by
-                have : a = x.a * i + x.b := by omega
-                rw [this, hq, hr, Int.mul_add, Int.mul_assoc]
-              rw [ea, hq, hr, Int.mul_tdiv_cancel_left _ hb0, Int.mul_tdiv_cancel_left _ hb0,
-                  Int.mul_tdiv_cancel_left _ hb0]
-              exact ⟨i, by omega⟩
-            · -- non-negative dividend and residue: truncation is floor
-              obtain ⟨q, hq⟩ := hd
-              have ea : a = x.b + (q * i) * b := by
-                have : a = x.a * i + x.b := by omega
-                rw [this, hq, Int.mul_assoc, Int.mul_comm b (q * i)]; omega
-              rw [Int.tdiv_eq_ediv_of_nonneg h30, Int.tdiv_eq_ediv_of_nonneg h31, ea,
-                  Int.add_mul_ediv_right _ _ hb0, hq, Int.mul_tdiv_cancel_left _ hb0]
-              exact ⟨i, by omega⟩
-        · exact mem_top _
-      · rename_i hoa
-        split
         · rename_i hxa
-          have hxb : x.b = 0 := by
-            apply Classical.byContradiction
-            intro hc; exact h4 ⟨hxa, hoa, hc⟩
-          have ea := eq_of_mem_cst ha hxa
-          rw [ea, hxb]
-          simp only [Int.zero_tdiv]
-          split <;> simp [mem_mk']
+          rw [mem_ofInt, eq_of_mem_cst ha hxa]
+        · split
+          · rename_i hdiv
+            rw [mem_mk']
+            obtain ⟨q, hq⟩ := Int.dvd_of_tmod_eq_zero hdiv.1
+            obtain ⟨r, hr⟩ := Int.dvd_of_tmod_eq_zero hdiv.2
+            obtain ⟨i, hi⟩ := ha.2
+            have ea : a = b * (q * i + r) := by
+              have : a = x.a * i + x.b := by omega
+              rw [this, hq, hr, Int.mul_add, Int.mul_assoc]
+            rw [ea, hq, hr, Int.mul_tdiv_cancel_left _ hb0, Int.mul_tdiv_cancel_left _ hb0,
+                Int.mul_tdiv_cancel_left _ hb0]
+            exact ⟨i, by omega⟩
+          · exact mem_top _
+      · split
+        · rename_i hz
+          simp [isZero] at hz
+          have := eq_of_mem_cst ha hz.1.2
+          rw [this, hz.2, Int.zero_tdiv]
+          exact ⟨ha.1, by rw [hz.1.2, hz.2]; simp⟩
         · exact mem_top _
 
 theorem tmod_sub_dvd (k d g : Int) (hg : g ∣ d) : g ∣ Int.tmod k d - k := by
@@ -164,73 +228,32 @@ theorem tmod_sub_dvd (k d g : Int) (hg : g ∣ d) : g ∣ Int.tmod k d - k := by
   rw [this]
   exact Int.dvd_neg.mpr (Int.dvd_trans hg (Int.dvd_mul_right _ _))
 
-theorem srem_sound_of_safe {x o r : Cong} {a b : Int} (ha : mem a x) (hb : mem b o) (hb0 : b ≠ 0)
-    (h4 : ¬ divCstByClass x o) (h3 : ¬ divClassByCst x o ∨ (0 ≤ a ∧ 0 ≤ x.b))
-    (hr : srem x o = some r) : mem (Int.tmod a b) r := by
-  unfold srem at hr
-  simp only [ha.1, hb.1, Bool.or_self, Bool.false_eq_true, if_false] at hr
-  split at hr
+theorem srem_sound {x o : Cong} {a b : Int} (ha : mem a x) (hb : mem b o) (hb0 : b ≠ 0) :
+    mem (Int.tmod a b) (srem x o) := by
+  unfold srem
+  simp only [ha.1, hb.1, Bool.or_self, Bool.false_eq_true, if_false]
+  split
   · rename_i hz
     have := eq_of_mem_cst hb hz.1
     rw [hz.2] at this; exact absurd this hb0
-  · split at hr
-    · cases hr; exact mem_top _
-    · split at hr
-      · rename_i hoa
-        have eb := eq_of_mem_cst hb hoa
-        rw [← eb] at hr
-        split at hr
-        · rename_i hdiv
-          cases hr
-          rw [mem_mk']
-          simp only [Int.zero_dvd]
-          have hd : b ∣ x.a := Int.dvd_of_tmod_eq_zero hdiv
+  · split
+    · exact mem_top _
+    · split
+      · rename_i h0
+        rw [mem_ofInt, eq_of_mem_cst ha h0.1, eq_of_mem_cst hb h0.2]
+      · split
+        · rename_i hz
+          have eb := eq_of_mem_cst hb hz.1
+          rw [← eb] at hz
+          rw [mem_ofInt]
           obtain ⟨i, hi⟩ := ha.2
-          by_cases hxa : x.a = 0
-          · have := eq_of_mem_cst ha hxa
-            rw [this]; simp
-          · rcases h3 with h3 | ⟨h30, h31⟩
-            · have hbx : b ∣ x.b := by
-                apply Classical.byContradiction
-                intro hc
-                exact h3 ⟨hoa, hxa, by rw [← eb]; exact hdiv, by rw [← eb]; exact hc⟩
-              have hba : b ∣ a := by
-                have : a = x.a * i + x.b := by omega
-                rw [this]; exact Int.dvd_add (Int.dvd_trans hd (Int.dvd_mul_right _ _)) hbx
-              rw [Int.tmod_eq_zero_of_dvd hba, Int.tmod_eq_zero_of_dvd hbx]; rfl
-            · obtain ⟨q, hq⟩ := hd
-              have ea : a = x.b + b * (q * i) := by
-                have : a = x.a * i + x.b := by omega
-                rw [this, hq, Int.mul_assoc]; omega
-              rw [Int.tmod_eq_emod_of_nonneg h30, Int.tmod_eq_emod_of_nonneg h31, ea,
-                  Int.add_mul_emod_self_left]
-              omega
-        · cases hr
-          rw [mem_mk']
-          have h1 := tmod_sub_dvd a b _ (gcd_dvd_right x.a b)
-          have h2 := Int.dvd_trans (gcd_dvd_left x.a b) ha.2
-          have : a.tmod b - x.b = (a.tmod b - a) + (a - x.b) := by omega
-          rw [this]; exact Int.dvd_add h1 h2
-      · rename_i hoa
-        split at hr
-        · rename_i hxa
-          have hxb : x.b = 0 := by
-            apply Classical.byContradiction
-            intro hc; exact h4 ⟨hxa, hoa, hc⟩
-          have ea := eq_of_mem_cst ha hxa
-          rw [ea, hxb]
-          simp only [Int.zero_tmod]
-          rw [hxb] at hr
-          split at hr
-          · cases hr; rw [mem_mk']; simp
-          · rename_i hn
-            split at hr
-            · rename_i h0n; omega
-            · split at hr
-              · rename_i hge; simp at hge
-              · cases hr
-        · cases hr
-          rw [mem_mk']
+          have hba : b ∣ a := by
+            have : a = x.a * i + x.b := by omega
+            rw [this]
+            exact Int.dvd_add (Int.dvd_trans (Int.dvd_of_tmod_eq_zero hz.2.1) (Int.dvd_mul_right _ _))
+              (Int.dvd_of_tmod_eq_zero hz.2.2)
+          exact Int.tmod_eq_zero_of_dvd hba
+        · rw [mem_mk']
           obtain ⟨j, hj⟩ := hb.2
           have hgb : gcd3 x.a o.a o.b ∣ b := by
             have : b = o.a * j + o.b := by omega
